@@ -374,6 +374,28 @@ def check_entry(ctx):
                        '%s=%s' % kv for kv in key),
                    why if ok else 'enforce evaluates the rule with the '
                    'wrong roles: %s' % (d,))
+    # enforce() looks the rule store up under the enforced name only:
+    # references inside a definition are resolved by the reference check
+    # (and its fail-closed handling), one evaluation per reference
+    for n in ast.walk(enf.node):
+        key = None
+        if isinstance(n, ast.Subscript) and isinstance(
+                n.ctx, ast.Load) and U(n.value) == 'self.rules':
+            key = n.slice
+        elif isinstance(n, ast.Call) and method_call(n, 'get') and U(
+                method_call(n)[0]) == 'self.rules' and n.args:
+            key = n.args[0]
+        if key is None:
+            continue
+        ok = U(key) == prm[1]
+        ctx.ob('C06.ENTRY', ok, ctx.where(enf.module, n), enf.qual,
+               'rule-store lookup ' + U(n)[:60],
+               'under the enforced name' if ok else
+               'enforce() resolves a reference itself (%s): the policy is '
+               'then not decided as its definition - evaluated with each '
+               'reference resolved where it stands - decides (a different '
+               'current rule, a different answer for a long or undefined '
+               'chain)' % U(n)[:50])
     ctx.count(len(t.paths))
     ctx.floor('C06.ENTRY', len(seen), 2, 'evaluation entry calls')
 
